@@ -193,6 +193,19 @@ CHECKS['C08'] = dict(
     design='5/C08',
 )
 
+CHECKS['C19'] = dict(
+    level='exploration',
+    text=("Bounded-exhaustive: (a) every shipped notation (propositional, definedness, Kore, sorted/Kore quantifiers, forall, "
+          "n-ary applications, cells) x all ordered pairs of argument tuples from a pool with pairwise distinct renderings, "
+          "printed with the owning module's PrettyOptions: applications that expand to different patterns must render "
+          "differently; (b) for shipped modules, the import-graph family and DSL expressions, both optimise settings: "
+          "the step lines of .pretty-gamma/claim/proof correspond one-to-one, in order, kind and operands, to the "
+          "instructions decoded from .ml-gamma/claim/proof written by the real ProofExp.serialize."),
+    note='Trusted: instruction decoder and listing parser in mc/c19.py.',
+    technique='bounded-exhaustive enumeration of notation applications and of module files',
+    design='5/C19',
+)
+
 NOT_YET = {
 }
 
